@@ -156,3 +156,66 @@ func verifH_C03_offline_client() {
 	}
 	verifReach("end")
 }
+
+// C03_race_client: the client-side twin of C03_race_server (client -> server emit with timeout; reply racing the timer).
+//
+//verif:unwind 10
+//verif:preempt 3
+func verifH_C03_race_client() {
+	_, cl := verifClientWorld(&verifPipeParser{}, "/")
+	s := cl["/"]
+	replies := verifChoose(0, 2)
+	calls := 0
+	var gotErr error
+	gotArg := ""
+	id := s.registerAckHandler(func(err error, arg string) {
+		calls++
+		gotErr, gotArg = err, arg
+	}, 30*time.Millisecond)
+	verifThreads(true)
+	for i := 0; i < replies; i++ {
+		verifGo(func() {
+			rid := id
+			s.onAck(&parser.PacketHeader{Type: parser.PacketTypeAck, Namespace: "/", ID: &rid}, verifReplyDecode("reply"))
+		})
+	}
+	verifWaitQuiescent()
+	verifAssert(calls == 1, "an ack callback with timeout runs exactly once, whatever the race between reply and timer")
+	if replies == 0 {
+		verifAssert(gotErr == ErrAckTimeout, "without a reply the callback gets ErrAckTimeout")
+	}
+	if gotErr == nil {
+		verifAssert(gotArg == "reply", "a reply is delivered with the arguments it carried")
+	} else {
+		verifAssert(gotErr == ErrAckTimeout && gotArg == "", "a timed-out ack gets ErrAckTimeout and zero values")
+	}
+	_, still := s.acks[id]
+	verifAssert(!still, "the ack entry is removed")
+	verifAssert(verifHeldLocks() == 0 && verifBlocked() == 0, "no mutex left held, no goroutine blocked")
+	verifReach("end")
+}
+
+// C03_one_reply: the receiving side answers an event at most once: a handler that calls its ack function from two
+// goroutines at the same time produces exactly one ACK packet, carrying the id of that very event.
+//
+//verif:unwind 12
+//verif:preempt 2
+//verif:rand concrete
+func verifH_C03_one_reply() {
+	w := verifServerWorld("/")
+	w.conn.parser = &verifFrameParser{log: &w.encoded}
+	s := w.verifConnected("/")["/"]
+	s.OnEvent("q", func(ack func(string)) {
+		verifGo(func() { ack("first") })
+		verifGo(func() { ack("second") })
+	})
+	id := verifAnyUint64()
+	before := w.countEncoded(parser.PacketTypeAck, "/")
+	verifThreads(true)
+	err := s.onPacket(&parser.PacketHeader{Type: parser.PacketTypeEvent, Namespace: "/", ID: &id}, "q", verifArgDecode)
+	verifWaitQuiescent()
+	verifAssert(err == nil, "the event is dispatched")
+	verifAssert(w.countEncoded(parser.PacketTypeAck, "/")-before == 1, "an event is acknowledged exactly once however often and concurrently its ack function is called")
+	verifAssert(verifHeldLocks() == 0, "no mutex left held")
+	verifReach("end")
+}
